@@ -322,3 +322,18 @@ def _(v):
     v.prove("limiting_delegates", SP.approx_eq(lim(c), E.limiting_activity_product(IS, (1, 1), z, 298.15, 78.4, 997.0)))
     ext = E.ExtendedDebyeHuckelActivityProduct((1, 1), z, [4e-10, 3e-10], 298.15, 78.4, 997.0)
     v.prove("extended_delegates", SP.approx_eq(ext(c), E.extended_activity_product(IS, (1, 1), z, [4e-10, 3e-10], 298.15, 78.4, 997.0)))
+
+
+@harness("C18", "ionic_strength.dict_lookup_by_key", functions=[MOD + ":ionic_strength"], kind="shape-bounded", samples=30)
+def _(v):
+    """the substances mapping may be ordered differently / hold more species than the molalities: charges are looked up by key"""
+    from chempy import electrolytes
+    from chempy.chemistry import Substance
+    from collections import OrderedDict
+    zs = {"Fe+3": v.int("z_Fe", lo=1, hi=4), "Cl-": v.int("z_Cl", lo=-3, hi=-1), "Na+": v.int("z_Na", lo=1, hi=2)}
+    substances = OrderedDict((k, make_obj(Substance, name=k, composition={0: zs[k], 1: 1}, data={})) for k in ["Na+", "Cl-", "Fe+3"])
+    b1, b2 = v.real("b_Fe", lo=0, hi=5), v.real("b_Cl", lo=0, hi=5)
+    out = v.run(electrolytes.ionic_strength, OrderedDict([("Fe+3", b1), ("Cl-", b2)]), substances=substances, warn=False)
+    v.prove("returns", out.returned, detail=repr(out.exc))
+    if out.returned:
+        v.prove("each_ion_with_its_own_charge", v.eq(out.value, (b1 * zs["Fe+3"] * zs["Fe+3"] + b2 * zs["Cl-"] * zs["Cl-"]) / 2))
